@@ -9,7 +9,7 @@ BUDGET = {
     "quick": dict(shards=16, cases=2400, deadline=70),
     "thorough": dict(shards=16, cases=60000, deadline=1200),
 }
-DECIDING = ["osu.read", "osu.write", "c01.chain"]
+DECIDING = ["osu.read", "osu.write", "c01.chain", "fileio.write_file", "fileio.read_file"]
 RULE = ("Generated .osu v14 mania texts: key counts 1..18, x at column centre / left edge / right edge / random inside, negative, zero and "
         "huge (1e7) times, hits + holds (0 and 1 ms holds), hitsound bytes 0..15, sample/addition/custom/volume fields, sample file "
         "names, 0..25 SVs incl. coincident with tempo points, 1..4 tempo points with meters 1..7, metadata with a second ':', non-ASCII, "
@@ -27,7 +27,7 @@ TEXT_CLASSES = ["plain", "plain", "colon_meta", "no_event_comments", "edge_x", "
 def pinned(tier):
     repo = os.environ.get("VERIF_REPO", "/repo")
     files = sorted(glob.glob(os.path.join(repo, "rsc/maps/osu/*.osu")))
-    return [dict(cls="corpus", path=p) for p in (files if tier == "thorough" else files[:6])]
+    return ([dict(cls="corpus", path=p) for p in (files if tier == "thorough" else files[:6])]) + ([dict(cls="repo_test_suite", select=['tests/unit_tests/osu', 'tests/algorithm_tests'])] if tier == "thorough" else [])
 
 
 def gen(rng, tier, k):
@@ -88,6 +88,9 @@ def chain(ctx, lines0):
 
 
 def run(ctx, case):
+    if case.get("cls") == "repo_test_suite":
+        from rv.suite import run_repo_tests
+        return run_repo_tests(ctx, case.get("select"))
     from reamber.osu.OsuMap import OsuMap
     from rv.gen import charts
     from rv.monitors.osu import read_domain, write_domain
@@ -120,6 +123,11 @@ def run(ctx, case):
         ok = write_domain(m) is None
     if ok and (ctx.cur_k is None or ctx.cur_k % 3 == 0 or case["cls"] == "corpus"):
         chain(ctx, out)
+    if ctx.cur_k is not None and ctx.cur_k % 4 == 1:
+        from rv.monitors import fileio
+        fileio.check_write_file(ctx, "C01", m, kind="lines")
+        text = "\n".join(str(x) for ln in out for x in str(ln).split("\n"))
+        fileio.check_read_file(ctx, "C01", OsuMap, text, read_arg=text.split("\n"))
     # read(write(x)) is judged by the read monitor on the written text
     try:
         OsuMap.read([str(x) for ln in out for x in str(ln).split("\n")])
